@@ -119,7 +119,10 @@ func newWireExtractor(p *Prog, r *Report) *wireExtractor {
 }
 
 // isInfoMode: v is <FileInfo/DirEntry>.Mode() or .Type() of the walked entry.
-func isModeCall(v ssa.Value) bool {
+func isModeCall(v ssa.Value, canon ...func(ssa.Value) ssa.Value) bool {
+	if len(canon) > 0 && canon[0] != nil {
+		v = canon[0](v)
+	}
 	c, ok := v.(*ssa.Call)
 	if !ok {
 		return false
@@ -128,12 +131,12 @@ func isModeCall(v ssa.Value) bool {
 		return true
 	}
 	if calleeName(c) == "(io/fs.FileMode).Type" && len(c.Common().Args) == 1 {
-		return isModeCall(c.Common().Args[0])
+		return isModeCall(c.Common().Args[0], canon...)
 	}
 	return false
 }
 
-func (w *wireExtractor) encAtom(a entryAssign) func(ssa.Value) (bool, bool) {
+func (w *wireExtractor) encAtom(a entryAssign, canon func(ssa.Value) ssa.Value) func(ssa.Value) (bool, bool) {
 	return func(cond ssa.Value) (bool, bool) {
 		switch x := cond.(type) {
 		case *ssa.Call:
@@ -146,11 +149,11 @@ func (w *wireExtractor) encAtom(a entryAssign) func(ssa.Value) (bool, bool) {
 				}
 				switch f.FullName() {
 				case "(io/fs.FileMode).IsDir":
-					if isModeCall(x.Common().Args[0]) {
+					if isModeCall(x.Common().Args[0], canon) {
 						return a.typ == "DIR", true
 					}
 				case "(io/fs.FileMode).IsRegular":
-					if isModeCall(x.Common().Args[0]) {
+					if isModeCall(x.Common().Args[0], canon) {
 						return a.typ == "REG", true
 					}
 				}
@@ -160,7 +163,7 @@ func (w *wireExtractor) encAtom(a entryAssign) func(ssa.Value) (bool, bool) {
 			}
 		case *ssa.BinOp:
 			if x.Op == token.NEQ || x.Op == token.EQL {
-				if and, ok := x.X.(*ssa.BinOp); ok && and.Op == token.AND && isModeCall(and.X) {
+				if and, ok := x.X.(*ssa.BinOp); ok && and.Op == token.AND && isModeCall(and.X, canon) {
 					if k, ok := constInt(and.Y); ok {
 						if z, ok := constInt(x.Y); ok && z == 0 {
 							if pred, ok := w.modeBits[k]; ok {
@@ -194,10 +197,11 @@ func (w *wireExtractor) encRecord(in ssa.Instruction) string {
 }
 
 func (w *wireExtractor) encoderSeqs(a entryAssign) ([]string, bool) {
-	s := &Sim{Fn: w.enc, Atom: w.encAtom(a), Record: w.encRecord, Completed: func(ret *ssa.Return) bool {
+	s := &Sim{Fn: w.enc, Record: w.encRecord, Inline: w.inlineHelpers, Completed: func(ret *ssa.Return) bool {
 		v := retResults(ret)[0]
 		return isNilConst(v) || isSkipDirLoad(v)
 	}}
+	s.Atom = w.encAtom(a, s.C)
 	var out []string
 	for _, q := range s.Run() {
 		if q != "" {
@@ -207,7 +211,7 @@ func (w *wireExtractor) encoderSeqs(a entryAssign) ([]string, bool) {
 	return out, s.Trunc
 }
 
-func (w *wireExtractor) decAtom(a entryAssign) func(ssa.Value) (bool, bool) {
+func (w *wireExtractor) decAtom(a entryAssign, canon func(ssa.Value) ssa.Value) func(ssa.Value) (bool, bool) {
 	flagsP := w.dec.Params[1]
 	modeF := w.p.Field(pkgReceiver, "File", "Mode")
 	return func(cond ssa.Value) (bool, bool) {
@@ -215,7 +219,7 @@ func (w *wireExtractor) decAtom(a entryAssign) func(ssa.Value) (bool, bool) {
 		case *ssa.BinOp:
 			if x.Op == token.NEQ || x.Op == token.EQL {
 				if and, ok := x.X.(*ssa.BinOp); ok && and.Op == token.AND {
-					if and.X == ssa.Value(flagsP) {
+					if canon(and.X) == ssa.Value(flagsP) {
 						if k, ok := constInt(and.Y); ok {
 							if z, ok := constInt(x.Y); ok && z == 0 {
 								for _, fl := range xmitFlags {
@@ -266,10 +270,11 @@ func (w *wireExtractor) decRecord(in ssa.Instruction) string {
 }
 
 func (w *wireExtractor) decoderSeqs(a entryAssign) ([]string, bool) {
-	s := &Sim{Fn: w.dec, Atom: w.decAtom(a), Record: w.decRecord, Completed: func(ret *ssa.Return) bool {
+	s := &Sim{Fn: w.dec, Record: w.decRecord, Inline: w.inlineHelpers, Completed: func(ret *ssa.Return) bool {
 		rr := retResults(ret)
 		return isNilConst(rr[len(rr)-1])
 	}}
+	s.Atom = w.decAtom(a, s.C)
 	return s.Run(), s.Trunc
 }
 
@@ -296,4 +301,14 @@ func allAssignments(withFlags bool) []entryAssign {
 		}
 	}
 	return out
+}
+
+// inlineHelpers: same-package helpers may be walked in line, except the
+// functions that are themselves wire primitives or sources of atoms.
+func (w *wireExtractor) inlineHelpers(fn *ssa.Function) bool {
+	switch fn.Name() {
+	case "matches", "ioError", "uidFromFileInfo", "gidFromFileInfo", "rdevFromFileInfo":
+		return false
+	}
+	return true
 }
